@@ -160,6 +160,11 @@ pub struct LogicalOpts {
     /// (loose / concat) the directory pack is listed after the first content pack in the manifest
     /// instead of first
     pub dir_not_first: bool,
+    /// (loose, raw first content) grow the first content of pack 1 until the 4 CRC bytes that end
+    /// the pack's last table (the content-info block, right before the check block) straddle a
+    /// 4096-byte page boundary of the file: a truncation at that page boundary then cuts inside a
+    /// block checksum, where "mapped beyond the end of the file" lives
+    pub align_last_block_crc_to_page: bool,
 }
 
 impl LogicalOpts {
@@ -728,6 +733,31 @@ pub fn plan_model(logical: &Logical) -> Model {
 /// Build the container described by `logical` into `dir` (which must exist and be empty
 /// apart from other containers' files); `name` is the base name of the produced files.
 pub fn build(logical: &Logical, dir: &Path, name: &str, opts: &BuildOpts) -> Result<Built, DynErr> {
+    if logical.opts.align_last_block_crc_to_page {
+        assert!(logical.packaging == Packaging::Loose, "alignment: loose packaging only");
+        let mut l = logical.clone();
+        l.opts.align_last_block_crc_to_page = false;
+        let first = l.contents.iter().position(|c| c.pack == 1).expect("a content in pack 1");
+        for _round in 0..4 {
+            let tmp = dir.join(format!("{name}.align"));
+            std::fs::create_dir_all(&tmp)?;
+            let probe = build(&l, &tmp, name, opts)?;
+            let bytes = std::fs::read(&probe.pack_files[&1])?;
+            let _ = std::fs::remove_dir_all(&tmp);
+            let span = crate::layout::scan_file(&bytes).into_iter().next().ok_or("alignment: no pack header")?;
+            // the block CRC occupies [check_info_pos - 4, check_info_pos): put its third byte on a page start
+            let at = span.check_info_pos - 2;
+            let d = (4096 - at % 4096) % 4096;
+            if d == 0 {
+                return build(&l, dir, name, opts);
+            }
+            let mut grown = (*l.contents[first].bytes).clone();
+            let fill = grown.last().copied().unwrap_or(b'.');
+            grown.extend(std::iter::repeat(fill).take(d as usize));
+            l.contents[first].bytes = Arc::new(grown);
+        }
+        return Err("alignment did not converge".into());
+    }
     let scratch = dir.join(format!("{name}.inputs"));
     std::fs::create_dir_all(&scratch)?;
     let r = build_inner(logical, dir, name, &scratch, opts);
